@@ -18,7 +18,7 @@ LEVEL = 'exploration'
 RULE = (
     'Hypothesis-generated (declared result type from a grammar of builtins, containers, unions, Optional, Literal, '
     'pydantic models, enums (incl. two distinct enum classes with the same name), nested; declared both as BaseEvent[T] class and via the event_result_type field) x 1-5 handlers '
-    'returning strictly conforming / coercible / hopeless values, None, exception objects, events, or raising; then '
+    '(on a serial or a parallel_handlers bus, where completion order differs from handler order) returning strictly conforming / coercible / hopeless values, None, exception objects, events, or raising; then '
     'ALL 8 flag combinations x 5 include filters x 6 accessors are called on the completed event and compared with a '
     'reference implementation computed from the recorded results. Typing oracle: independent structural conformance '
     'checker + differential against TypeAdapter. Non-trivial = >= 2 results of different outcome classes, or a '
@@ -168,7 +168,10 @@ def _case(draw):
             val = _enc(draw(hopeless))
         rets.append([k, val, draw(st.booleans())])  # third = async handler?
     # make dict/list results more likely to exercise the flat accessors
-    return {'type': tname, 'via_class': via_class, 'rets': rets, 'wild': draw(st.integers(0, len(rets)))}
+    # on a parallel_handlers bus async handlers finish in an order unrelated to registration order (each waits `delay` ticks)
+    par = draw(st.integers(0, 3)) == 0
+    delays = [draw(st.integers(0, 4)) for _ in rets] if par else []
+    return {'type': tname, 'via_class': via_class, 'rets': rets, 'wild': draw(st.integers(0, len(rets))), 'par': par, 'delays': delays}
 
 
 def strategy(tier):
@@ -317,7 +320,7 @@ def run_case(c):
     with fresh_loop() as loop:
 
         async def main():
-            bus = EventBus(name='B')
+            bus = EventBus(name='B', parallel_handlers=bool(c.get('par')))
             raised: dict = {}
             retvals: dict = {}
             carrier = Carrier(n=7)
@@ -349,8 +352,9 @@ def run_case(c):
 
                     if is_async:
 
-                        async def h(e):
-                            await asyncio.sleep(0)
+                        async def h(e, i=i):
+                            for _ in range(1 + (c.get('delays') or [0] * 9)[i] if c.get('par') else 1):
+                                await asyncio.sleep(0)
                             return body()
                     else:
 
@@ -513,5 +517,7 @@ def run_case(c):
         classes.append('list-result')
     if sum(1 for r in rows if isinstance(r[2], dict)) >= 2:
         classes.append('two-dict-results')
+    if c.get('par'):
+        classes.append('parallel-bus')
     nontrivial = len(kinds) >= 2 or tname in NON_CLASS
     return {'viol': out, 'nontrivial': nontrivial, 'classes': classes, 'log': [repr(info.get('rows'))]}
